@@ -14,6 +14,7 @@ package main
 import (
 	"bytes"
 	"fmt"
+	"math"
 	"os"
 	"strconv"
 	"strings"
@@ -125,9 +126,45 @@ type plyValueClass int
 const (
 	plyVcNice plyValueClass = iota // dyadic k/8, exactly printable and float32-exact
 	plyVcAny                    // arbitrary doubles (binary formats only)
+	plyVcF32                    // float32-representable values with many significant digits and small magnitudes
+	//                             (random float32 bit patterns, exponents −30..+10): all three encodings; "up to the
+	//                             precision of the stored type" is then bit-exact equality
 )
 
+// a float32-representable value: special small / many-digit values, else a random bit pattern
+func (c *Ctx) plyF32(unit bool) float64 {
+	if unit {
+		switch c.Rng.Intn(4) {
+		case 0:
+			return float64(float32(0.1))
+		case 1:
+			return float64(float32(c.Rng.Intn(256)) / 255)
+		}
+		return float64(c.Rng.Float32())
+	}
+	switch c.Rng.Intn(8) {
+	case 0:
+		return math.Ldexp(1, -21) // 4.76837158203125e-07: below half a millionth
+	case 1:
+		return float64(float32(1.2207031e-4))
+	case 2:
+		return float64(float32(0.1))
+	case 3:
+		return -math.Ldexp(float64(1+c.Rng.Intn(7)), -20-c.Rng.Intn(10))
+	}
+	e := c.Rng.Intn(41) - 30
+	mant := uint32(c.Rng.Intn(1 << 23))
+	if c.Rng.Intn(3) == 0 {
+		mant &= 0x7f0000 // few mantissa bits
+	}
+	bits := uint32(c.Rng.Intn(2))<<31 | uint32(127+e)<<23 | mant
+	return float64(math.Float32frombits(bits))
+}
+
 func (c *Ctx) plyVal(vc plyValueClass, unit bool) float64 {
+	if vc == plyVcF32 {
+		return c.plyF32(unit)
+	}
 	if unit {
 		// colour-like: mostly in [0,1], some out of range, .5 boundaries
 		switch c.Rng.Intn(8) {
@@ -164,11 +201,18 @@ func (c *Ctx) plyVal(vc plyValueClass, unit bool) float64 {
 	if k == 0 {
 		k = 1 // no signed-zero subtleties in the decimal printer
 	}
-	switch c.Rng.Intn(3) {
+	switch c.Rng.Intn(4) {
 	case 0:
 		return float64(k)
 	case 1:
 		return float64(k) / 8
+	case 2:
+		// more than six decimals, still at most 13 significant digits (exactly printable): j/65536
+		j := 1 + c.Rng.Intn(63)
+		if k < 0 {
+			j = -j
+		}
+		return float64(j) / 65536
 	}
 	return float64(k) / 64
 }
@@ -499,6 +543,8 @@ func plyResBytes(b []byte, err error) string {
 	return plyHx(b)
 }
 
+var plySkipAsciiWriteLine bool
+
 func plyWritesSomething(data []byte) bool {
 	h, err := ply.ReadHeader(bytes.NewReader(data))
 	if err != nil {
@@ -527,7 +573,14 @@ func (c *Ctx) plyCaseEP(g plyGenMesh, w plyWCfg, formats []ply.Format, agreeOp s
 			data = b
 			return plyResBytes(b, err)
 		})
-		c.Emit("c04.write", w.tok(f)+" "+plyMeshTok(m), ans)
+		if f == ply.ASCII && plySkipAsciiWriteLine {
+			// the model prints exact decimal expansions; Go prints the shortest round-tripping decimal: for values
+			// with more than ~15 significant digits the two texts differ, so the byte-for-byte write line is left out
+			// (the file is still read back by the model and the implementation, and every oracle is evaluated)
+			c.Note("ascii-write-line-skipped(long decimals)")
+		} else {
+			c.Emit("c04.write", w.tok(f)+" "+plyMeshTok(m), ans)
+		}
 		if ans == "err" || ans == "panic" {
 			c.Note("write:" + ans)
 			continue
@@ -626,6 +679,16 @@ func runC04(c *Ctx) {
 		g := c.plyMesh(plyVcNice)
 		for r := 0; r < 2; r++ {
 			c.plyCase(g, c.plyCfg(g), plyFormats, "c04.holds.encodings_agree")
+		}
+		if k%3 != 0 { // float32 values with many significant digits / small magnitudes, ALL THREE encodings
+			g := c.plyMesh(plyVcF32)
+			plySkipAsciiWriteLine = true
+			c.plyCase(g, c.plyCfg(g), plyFormats, "c04.holds.encodings_agree")
+			if k%3 == 1 {
+				c.plyCase(g, plyWCfg{isDefault: true}, plyFormats, "c04.holds.encodings_agree")
+			}
+			plySkipAsciiWriteLine = false
+			c.Note("values:float32-bit-patterns")
 		}
 		if k%3 == 0 { // arbitrary doubles: binary encodings only (ASCII printing of arbitrary doubles is not modelled)
 			g := c.plyMesh(plyVcAny)
